@@ -893,7 +893,7 @@ fn main() {
         let out = run_case(&case, &mut cache, &mut drv, false);
         account(&mut sum, &case, &out, &known);
     }
-    let (bases, variants) = if args.thorough { (60, 8) } else { (3, 4) };
+    let (bases, variants) = if args.thorough { (20, 6) } else { (3, 4) };
     let mut i = 0;
     for _ in 0..bases {
         let base = gen_base(&mut rng);
